@@ -16,6 +16,7 @@
                            per step; `runP penv H` — the same history on immutable pure values;
     `Inv h env penv`     — run state: `WF h`, all bindings live, `env.map (abs h) = penv`.
 -/
+import LispModel.Proofs.MetaLaws
 import LispModel.Proofs.PkgRegLaws
 import LispModel.Proofs.Heap
 namespace LispModel.Props.C02
@@ -242,5 +243,31 @@ example :
     let st := run registerFixed {} [.reg "main" "f", .snapSet "main", .snapMap]
     observe (step registerFixed st (.reg "main" "g")) = observe st ∧
     observe st = [.set ["f"], .map [("main", ["f"])]] := by decide
+
+
+/-! ## metadata (with-meta / meta / ^; model LispModel/Meta.lean, engine meta)
+
+The evaluator model has no metadata; `LispModel.Meta` is a separate model of values WITH metadata at every collection /
+function node and of the builtins that create, read, keep or drop it, tied to the real interpreter by engine `meta`. -/
+
+open LispModel.Meta in
+/-- `with-meta` leaves its argument — and every other binding — exactly as it was (metadata included) -/
+theorem with_meta_does_not_touch_argument (regs : Regs) (dst src : Nat) (m : MArg) (h : src ≠ dst) :
+    (exec regs ⟨dst, .call "with-meta" [.reg src, m]⟩).1[src]? = regs[src]? ∧
+    ∀ i, i ≠ dst → (exec regs ⟨dst, .call "with-meta" [.reg src, m]⟩).1[i]? = regs[i]? :=
+  withMeta_does_not_touch_argument regs dst src m h
+
+open LispModel.Meta in
+/-- a program over the metadata-relevant builtins changes only the bindings it assigns -/
+theorem meta_programs_frame (prog : List Stmt) (regs : Regs) (i : Nat) (h : ∀ s ∈ prog, s.dst ≠ i) :
+    (run regs prog).1[i]? = regs[i]? := run_frame prog regs i h
+
+open LispModel.Meta in
+/-- the value is the same with and without the metadata -/
+theorem with_meta_same_value {x m y : MVal} (h : withMeta x m = .ok y) : erase y = erase x := withMeta_erase h
+
+open LispModel.Meta in
+theorem meta_reads_what_with_meta_wrote {x m y : MVal} (h : withMeta x m = .ok y) : getMeta y = .ok m :=
+  meta_withMeta h
 
 end LispModel.Props.C02
